@@ -5,6 +5,7 @@
   and every CTS grant ≤ RTS limit, ≤ own maximum, ≤ remaining.
 -/
 import J1939.Lemmas.Dll21
+import J1939.Lemmas.Dll22Tick
 namespace J1939.Props.C09
 open J1939 J1939.Gen J1939.Dll21
 
@@ -208,5 +209,98 @@ theorem c09_bam_first (cfg : Cfg) (s : St) (now dp pf ps prio sa : Nat) (data : 
   unfold sendPgn at *
   simp only [hl', if_false] at *
   crack [hg, PyDict.get?_set_self]
+
+end J1939.Props.C09
+
+/-! ## J1939-22 (FD) -/
+namespace J1939.Props.C09
+open J1939 J1939.Gen J1939.Dll22
+
+/-! ### J1939-22 responder -/
+
+/-- J1939-22, FIRST GRANT: an RTS for a free (session, pair) is answered by exactly one CTS for segment 1 granting
+    min(own maximum, RTS limit, total segments) — never more than any of the three -/
+theorem c09_22_first_cts (cfg : Cfg) (s : St) (now : Nat) (mid : MessageId) (dest : Nat) (data : List Nat)
+    (hl : 12 ≤ data.length) (hc : Tp22.cm_control data = Const.CM22.RTS)
+    (hfree : s.rcv.contains (Tp22.buffer_hash (Tp22.cm_session data) mid.source_address dest) = false) :
+    let g := min cfg.maxCmdt (min (Tp22.cm_byte7 data) (Tp22.cm_segment data))
+    (processCm cfg s now mid dest data).outs =
+      [.tx (Tp22.cts dest mid.source_address (Tp22.cm_session data) g 1 (Tp22.cm_pgn data)), .wake] ∧
+    g ≤ cfg.maxCmdt ∧ g ≤ Tp22.cm_byte7 data ∧ g ≤ Tp22.cm_segment data := by
+  have hl' : ¬ data.length < 12 := by omega
+  unfold processCm
+  simp only [hl', if_false, hc, beq_self_eq_true, if_true, hfree, Bool.false_eq_true]
+  refine ⟨trivial, Nat.min_le_left _ _, ?_, ?_⟩
+  · exact Nat.le_trans (Nat.min_le_right _ _) (Nat.min_le_left _ _)
+  · exact Nat.le_trans (Nat.min_le_right _ _) (Nat.min_le_right _ _)
+
+/-- J1939-22: a busy (session, pair) is refused with an abort (reason BUSY); the running session is untouched -/
+theorem c09_22_rts_busy (cfg : Cfg) (s : St) (now : Nat) (mid : MessageId) (dest : Nat) (data : List Nat)
+    (hl : 12 ≤ data.length) (hc : Tp22.cm_control data = Const.CM22.RTS)
+    (hbusy : s.rcv.contains (Tp22.buffer_hash (Tp22.cm_session data) mid.source_address dest) = true) :
+    (processCm cfg s now mid dest data).st = s ∧
+    (processCm cfg s now mid dest data).outs =
+      [.tx (Tp22.abort dest mid.source_address (Tp22.cm_session data) Const.Abort22.BUSY (Tp22.cm_pgn data))] := by
+  have hl' : ¬ data.length < 12 := by omega
+  unfold processCm
+  simp [hl', hc, hbusy]
+
+/-- J1939-22, LATER GRANTS: an in-order segment that does not complete the message and reaches the window border is
+    answered by ONE CTS granting min(negotiated window, segments after the border) for segment border+1, and the border
+    advances by at most the window, never beyond the total; below the border no frame is sent -/
+theorem c09_22_dt_grant (s : St) (now : Nat) (mid : MessageId) (dest : Nat) (f : List Nat) (r : Rcv) (border mr : Nat)
+    (hlen : 4 < f.length) (hseg : Tp22.dt_segment f ≠ 0) (hd : dest ≠ Const.Addr.GLOBAL)
+    (hr : s.rcv.get? (Tp22.buffer_hash (Tp22.dt_session f) mid.source_address dest) = some r)
+    (hnext : r.nextPacket = Tp22.dt_segment f) (hb : r.ctsBorder = some border) (hm : r.maxRec = some mr)
+    (hinc : (r.data ++ f.drop 4).length < r.messageSize) :
+    (Tp22.dt_segment f ≥ border →
+      (processDt s now mid dest f).outs =
+        [.tx (Tp22.cts dest mid.source_address (Tp22.dt_session f) (min mr (r.numSegments - border)) (border + 1) r.pgn), .wake] ∧
+      min mr (r.numSegments - border) ≤ mr ∧ min mr (r.numSegments - border) ≤ r.numSegments - border) ∧
+    (Tp22.dt_segment f < border → (processDt s now mid dest f).outs = []) := by
+  have hl : ¬ f.length ≤ 4 := by omega
+  have hseg' : (Tp22.dt_segment f == 0) = false := by simpa using hseg
+  have hnx : (r.nextPacket != Tp22.dt_segment f) = false := by simp [hnext]
+  have hdt : (dest != Const.Addr.GLOBAL) = true := by simpa using hd
+  have hnf : ¬ (r.data ++ f.drop 4).length ≥ r.messageSize := by omega
+  unfold processDt
+  simp only [hl, if_false, hseg', Bool.false_eq_true, hr, hnx, hnf, hdt, if_true, hb, hm]
+  constructor
+  · intro hge
+    simp only [hge, if_true]
+    exact ⟨trivial, Nat.min_le_left _ _, Nat.min_le_right _ _⟩
+  · intro hlt
+    have : ¬ Tp22.dt_segment f ≥ border := by omega
+    simp only [this, if_false]
+
+/-! ### J1939-22 originator -/
+
+/-- J1939-22, A CTS OPENS A WINDOW OF AT MOST THE GRANTED NUMBER: the originator will send from the requested segment
+    up to a wait-on segment that is at most `granted - 1` further, and never beyond its own maximum or the end of the
+    message; a CTS granting 0 (hold) opens nothing and only re-arms the timer -/
+theorem c09_22_cts_window (cfg : Cfg) (s : St) (now : Nat) (mid : MessageId) (dest : Nat) (data : List Nat) (b : Snd)
+    (hl : 12 ≤ data.length) (hc : Tp22.cm_control data = Const.CM22.CTS)
+    (hg : s.snd.get? (Tp22.buffer_hash (Tp22.cm_session data) dest mid.source_address) = some b) :
+    (Tp22.cm_byte7 data = 0 →
+      (processCm cfg s now mid dest data).st.snd.get? (Tp22.buffer_hash (Tp22.cm_session data) dest mid.source_address)
+        = some { b with deadline := now + Const.T22.Th }) ∧
+    (Tp22.cm_byte7 data ≠ 0 → ∃ b', (processCm cfg s now mid dest data).st.snd.get? (Tp22.buffer_hash (Tp22.cm_session data) dest mid.source_address) = some b' ∧
+      b'.next = (Tp22.cm_segment data : Int) - 1 ∧ b'.state = S_SENDING_RTS_CTS ∧
+      ∃ w, b'.waitOn = some w ∧ w - b'.next + 1 ≤ (Tp22.cm_byte7 data : Int) ∧ w - b'.next + 1 ≤ (cfg.maxCmdt : Int) ∧
+        (w - b'.next + 1 ≤ (b.numSegments : Int) - b'.next ∨ (b.numSegments : Int) - b'.next < 0)) := by
+  have hl' : ¬ data.length < 12 := by omega
+  have c1 : (Const.CM22.CTS == Const.CM22.RTS) = false := by decide
+  unfold processCm
+  simp only [hl', if_false, hc, c1, Bool.false_eq_true, beq_self_eq_true, if_true, hg]
+  constructor
+  · intro h0
+    simp [h0, PyDict.get?_set_self]
+  · intro hne
+    have : (Tp22.cm_byte7 data == 0) = false := by simpa using hne
+    simp only [this, Bool.false_eq_true, if_false, PyDict.get?_set_self]
+    refine ⟨_, rfl, rfl, rfl, _, rfl, ?_, ?_, ?_⟩
+    · simp only; split <;> split <;> split <;> omega
+    · simp only; split <;> split <;> split <;> omega
+    · simp only; split <;> split <;> split <;> omega
 
 end J1939.Props.C09
